@@ -9,6 +9,28 @@ from checks.c01 import c01_hist, judge
 from harness import oracle_model as om
 
 
+def catalogue_worker(idx):
+    """the package's own catalogue models against the derivatives of their hand transcription"""
+    import random
+    import shutil
+    from engine import catalogue, tlc
+    from pygom import common_models
+    from pygom.model import ode_utils
+    entry = catalogue.models()[idx]
+    defn = entry["defn"]
+    d = tlc.scratch_dir("cat_")
+    try:
+        odes = [{"kind": "ode", "st": p["st"], "eqn": p["eqn"]} for p in defn.procs]
+        outs, _ = om.run_tlc_oracle([defn.to_json(idx, want=["jac", "grad", "djac", "gjac"], events=[], odes=odes)], d, "cat%d" % idx)
+    finally:
+        shutil.rmtree(d, ignore_errors=True)
+    m = getattr(common_models, entry["factory"])()
+    m._SC = ode_utils.compileCode(backend="lambda")
+    mm = om.compare_model(defn, m, outs[0], [], ["ode", "jac", "grad", "djac", "gjac"], random.Random(idx), numeric=True,
+                          npoints=2, reactant=False)
+    return {"id": "catalogue:" + entry["name"], "describe": defn.describe(), "mism": mm, "ns": defn.sy.ns, "np": defn.sy.np, "ne": 0}
+
+
 def run(rep, tier, seed):
     quick = tier == "quick"
     rep.assume("sympy is used only to evaluate PyGOM's symbolic output at rational points (30 digits)")
@@ -25,6 +47,11 @@ def run(rep, tier, seed):
         rep.distinct(("G", str(r["hist"])))
     judge(rep, res, set(om.C03_KEYS), "replayed TLC state disagrees")
     rep.sample({"mode": "G", "history": mine[-1]["hist"], "expected_jacobian": mine[-1]["jac"]})
+    from engine import catalogue
+    cres = mc.pool_map(catalogue_worker, list(range(len(catalogue.models()))))
+    judge(rep, cres, set(om.C03_KEYS) | {"ode"}, "catalogue model disagrees with the derivatives of its transcription")
+    rep.traces(len(cres))
+    rep.cov["catalogue_models"] = [r["id"] for r in cres]
     n = 120 if quick else 2500
     opts = {"keys": om.C03_KEYS, "routes": ["E", "E1", "T", "LT", "LBo", "LBd", "LD"], "cython_every": 60 if quick else 80,
             "gen": {"nonsymmetric": True}}
